@@ -40,6 +40,30 @@ func badEscape(s string) bool {
 	}
 }
 
+// unescapePath mirrors unescape(s, encodePath) for a string without bad escapes: every %XX
+// becomes the byte it denotes, everything else (including '+') stays.
+func unescapePath(s string) string {
+	if !strings.Contains(s, "%") {
+		return s
+	}
+	b := make([]byte, 0, len(s))
+	for i := 0; i < len(s); i++ {
+		if s[i] == '%' {
+			b = append(b, byte(unhex(s[i+1])*16+unhex(s[i+2])))
+			i += 2
+		} else {
+			b = append(b, s[i])
+		}
+	}
+	return string(b)
+}
+
+// unhex of a hex digit, without branching (a symbolic digit stays one term).
+func unhex(c byte) int {
+	v := int(c)
+	return verif.IteInt(v <= '9', v-'0', verif.IteInt(v <= 'F', v-'A'+10, v-'a'+10))
+}
+
 // hostEscapeOK mirrors unescape(host, encodeHost): only %XX with XX >= 0x80 (non-ASCII) or the
 // handful of ASCII escapes Go permits in hosts are allowed; any other %XX is an error. The
 // harness alphabet never produces valid host escapes, so: any '%' in a host that is not part
@@ -56,7 +80,10 @@ func hostBad(h string) bool {
 		if i < 0 {
 			return false
 		}
-		if i+2 >= len(rest) || !ishex(rest[i+1]) || !ishex(rest[i+2]) || rest[i+1] < '8' {
+		if i+2 >= len(rest) || !ishex(rest[i+1]) || !ishex(rest[i+2]) {
+			return true
+		}
+		if rest[i+1] < '8' && rest[i:i+3] != "%25" { // "%25" (the zone delimiter) is the one ASCII escape Go accepts
 			return true
 		}
 		rest = rest[i+3:]
@@ -151,7 +178,7 @@ func URLParse(rawURL string) (*url.URL, error) {
 	if badEscape(rest) {
 		return nil, &urlErr{"invalid URL escape"}
 	}
-	out.Path = rest // unescaping is not modelled: callers below use only emptiness / prefix facts
+	out.Path = unescapePath(rest)
 	return finishFragment(out, frag, hasFrag)
 }
 
